@@ -14,21 +14,31 @@
      unmarked L           no diff:insert / diff:rename attribute in the document;
      erase_attrs          the document without its attributes.
 
-   PARTIAL.  Proved: for configurations without text tags and without use_replace, rejecting every marked change
-   gives back the left document's TAGS (diff:rename undone), STRUCTURE (inserted elements and moved copies dropped with
-   the text region after them, deleted and moved-away elements restored), TEXTS and TAILS (diff:insert wrappers dropped,
-   diff:delete wrappers restored) -- exactly, up to whitespace normalisation when normalize & WS_TEXT.
+     run_ok_attr          side conditions on the run for the ATTRIBUTE actions (XmlFmtProofsF.step_ok_attr): attribute names are
+                          non-empty, not in the diff namespace and free of ; : { } (so: no namespaced attribute names), new
+                          values are free of ; { }, on one node a name is touched by at most one attribute action ("fresh" for
+                          the node's annotations), InsertAttrib / RenameAttrib do not overwrite an existing attribute.  True of
+                          Differ scripts on such documents; evaluated by the harness (run_ok_attrb): a TESTED premise;
+     attrs_ok L           attribute names of a node are distinct and values free of ; { };
+     xequiv_r ws a b      as xequiv, except that the value WILD ("not recorded": the value of a deleted attribute) on
+                          the left matches any value.
+
+   PARTIAL.  Proved, for configurations without text tags and without use_replace: rejecting every marked change gives
+   back the left document -- TAGS (diff:rename undone), STRUCTURE (inserted elements and moved copies dropped with the
+   text region after them, deleted and moved-away elements restored), TEXTS and TAILS (diff:insert wrappers dropped,
+   diff:delete wrappers restored), and ATTRIBUTES (names and values restored from the diff:*-attr annotations, deleted
+   attributes with an unrecorded value) -- up to whitespace normalisation when normalize & WS_TEXT
+   (C10_reject_attrs_partial; C10_reject_partial is the same without the attribute premises and without attributes).
    Missing for the full statement:
-   (1) ATTRIBUTES: the restoration of old attribute names and values from the diff:*-attr annotation strings
-       (Projections.old_attrs) is defined and exercised by the reject oracle on every run, but not proved: it needs
-       parsing lemmas for the ';' / ':' separated lists and the per-node disjointness of the differ's attribute actions;
+   (1) namespaced attribute names and names/values containing ; : { } (the annotation strings are then ambiguous:
+       "a;b" is one value or two) -- excluded by run_ok_attr / attrs_ok;
    (2) text_tags <> [] and use_replace = true: correspondence + reject oracle only (and use_replace with text_tags is
        the open finding "use_replace-with-text_tags": old-text then holds raw placeholder characters);
-   (3) the premise run_ok is a condition on the run rather than a consequence of "script = Differ output". *)
+   (3) the premises run_ok / run_ok_attr are conditions on the run rather than consequences of "script = Differ output". *)
 From Coq Require Import List NArith ZArith Bool.
 Import ListNotations.
 Require Import XV.Str XV.Json XV.TextFormat XV.Forest XV.Path XV.XmlFmt XV.Projections
-               XV.XmlFmtProofs1 XV.XmlFmtProofs2 XV.XmlFmtProofs3 XV.XmlFmtProofs4 XV.XmlFmtProofs5.
+               XV.XmlFmtProofs1 XV.XmlFmtProofs2 XV.XmlFmtProofs3 XV.XmlFmtProofs4 XV.XmlFmtProofs5 XV.XmlFmtProofs9 XV.XmlFmtProofsF.
 Require XV.Placeholder XV.PlaceholderUndo XV.DMP.
 Local Open Scope N_scope.
 
@@ -41,6 +51,18 @@ Theorem C10_reject_partial :
   xequiv (ws_text c) (erase_attrs (reject T)) (erase_attrs L).
 Proof. intros c o rootns gs L T _. exact (reject_format c o rootns gs L T). Qed.
 Print Assumptions C10_reject_partial.
+
+(* the same WITH the attributes *)
+Theorem C10_reject_attrs_partial :
+  forall (c : cfg) (o : oracle) (rootns : list (option str * str)) (gs : list gaction) (L T : xtree),
+  c_tt c = [] -> c_replace c = false ->
+  PlaceholderUndo.npua L = true -> clean_tags L -> nodiff L -> attrs_ok L ->
+  run_ok c o rootns (FS L Placeholder.ph_init [(Some DIFF_PREFIX, DIFF_NS)]) gs ->
+  run_ok_attr c o rootns (FS L Placeholder.ph_init [(Some DIFF_PREFIX, DIFF_NS)]) gs ->
+  xml_format c o rootns Placeholder.ph_init gs L = FOk T ->
+  xequiv_r (ws_text c) (reject T) L.
+Proof. intros c o rootns gs L T _. exact (reject_format_attrs c o rootns gs L T). Qed.
+Print Assumptions C10_reject_attrs_partial.
 
 (* the handlers never change what rejection reads, one action at a time (the refinement step) *)
 Theorem C10_reject_step :
@@ -79,8 +101,7 @@ Definition exC : cfg := Cfg 0 false [] [].
 Example C10_example :
   exists T, xml_format exC exO [] Placeholder.ph_init exGs exW = FOk T /\
             xequiv (ws_text exC) (erase_attrs (reject T)) (erase_attrs exW) /\
-            (* and here the attributes come back as well *)
-            xequiv_rb false (reject T) exW = true.
+            xequiv_r (ws_text exC) (reject T) exW.
 Proof.
   destruct (xml_format exC exO [] Placeholder.ph_init exGs exW) as [T|e] eqn:E; [|vm_compute in E; discriminate].
   exists T. split; [reflexivity|]. split.
@@ -90,6 +111,13 @@ Proof.
     + repeat (constructor; try reflexivity).
     + apply run_okb_sound. vm_compute. reflexivity.
     + exact E.
-  - vm_compute in E. inversion E; subst T. vm_compute. reflexivity.
+  - apply (C10_reject_attrs_partial exC exO [] exGs exW T eq_refl eq_refl).
+    + reflexivity.
+    + repeat (constructor; try reflexivity).
+    + repeat (constructor; try reflexivity).
+    + repeat (constructor; try (split; constructor)).
+    + apply run_okb_sound. vm_compute. reflexivity.
+    + apply run_ok_attrb_sound. vm_compute. reflexivity.
+    + exact E.
 Qed.
 Print Assumptions C10_example.
